@@ -8,7 +8,7 @@
 (* deviation kind.  Expensive checks are evaluated lazily (only when the    *)
 (* library ACCEPTED a faulted input is the full verification evaluated).    *)
 (***************************************************************************)
-EXTENDS SM2, Gen, Json, IOUtils
+EXTENDS SM2Jac, Gen, Json, IOUtils
 Events == ndJsonDeserialize(IOEnv.TRACE)
 N == Len(Events)
 VARIABLES tpos, tst, tlast
@@ -68,12 +68,52 @@ Dec1(e) == Dec2(e, Decrypt(BFromBE(e.d), e.ct, e.order, e.compressed = 1))
 Kdf1(e) == Stay /\ tlast' = Verdict(e, e.outcome = "ok" /\ e.out = KDF(e.z, e.klen), IF e.klen % 32 = 0 THEN "klen%32=0" ELSE "klen-other",
                                     IF Crash(e) THEN e.outcome ELSE "wrong-kdf")
 
+\* ---------------- C15: key agreement, judged step by step (inputs of each step are logged; w = 127, one-byte tags) ----------------
+\* common fields: idA, idB (bytes), klen; the party's secrets; points as stored Jacobian records
+KxZ(e, who) == IF who = "A" THEN ZA(e.idA, Pk([pk |-> e.pkA])) ELSE ZA(e.idB, Pk([pk |-> e.pkB]))
+PtA(e) == Pk([pk |-> e.pkA])
+PtB(e) == Pk([pk |-> e.pkB])
+RecvOK(pt) == pt # Inf /\ pt # <<"bad">> /\ C!OnCurve(pt)
+\* step 1 (A): RA = [rA]G
+Kx1(e) == Stay /\ tlast' = Verdict(e, e.outcome = "ok" /\ JCanon(e.ra_out) /\ Denote(e.ra_out) = Mul(e.r, G), "step1", IF Crash(e) THEN e.outcome ELSE "wrong-RA")
+\* step 2 (B): receives RA'; outputs RB, SB, KB
+Kx2Exp(e, rcv, rb) == IF ~RecvOK(rcv) THEN <<"err">>
+                      ELSE <<"ok", KxResponder(BFromBE(e.d), BFromBE(e.r), rb, PtA(e), rcv, KxZ(e, "A"), KxZ(e, "B"), e.klen), rb>>
+Kx2Ok(e, x) == IF x[1] = "err" THEN e.outcome = "err"
+               ELSE IF x[2].v = Inf THEN e.outcome = "err"
+               ELSE e.outcome = "ok" /\ JCanon(e.rb_out) /\ Denote(e.rb_out) = x[3] /\ e.sb = x[2].sb /\ e.key = x[2].k
+Kx2Kind(e, x) == IF Crash(e) THEN e.outcome ELSE IF x[1] = "err" THEN "accepted-invalid-point" ELSE IF e.outcome # "ok" THEN "honest-run-failed"
+                 ELSE IF e.key # x[2].k THEN "nonconforming-key" ELSE IF e.sb # x[2].sb THEN "nonconforming-SB" ELSE "wrong-RB"
+Kx2b(e, x) == Stay /\ tlast' = Verdict(e, Kx2Ok(e, x), "step2." \o e.tamper, Kx2Kind(e, x))
+Kx2(e) == Kx2b(e, Kx2Exp(e, IF JCanon(e.ra_in) THEN Denote(e.ra_in) ELSE <<"bad">>, Mul(e.r, G)))
+\* step 3 (A): receives RB', SB'; outputs SA, KA
+Kx3Exp(e, rcv, ra) == IF ~RecvOK(rcv) THEN <<"err">>
+                      ELSE <<"ok", KxInitiator(BFromBE(e.d), BFromBE(e.r), ra, PtB(e), rcv, KxZ(e, "A"), KxZ(e, "B"), e.klen)>>
+Kx3Ok(e, x) == IF x[1] = "err" THEN e.outcome = "err"
+               ELSE IF x[2].v = Inf \/ x[2].sb # e.sb_in THEN e.outcome = "err"
+               ELSE e.outcome = "ok" /\ e.sa = x[2].sa /\ e.key = x[2].k
+Kx3Kind(e, x) == IF Crash(e) THEN e.outcome ELSE IF x[1] = "err" THEN "accepted-invalid-point"
+                 ELSE IF e.outcome = "ok" /\ x[2].sb # e.sb_in THEN "accepted-wrong-SB"
+                 ELSE IF e.outcome # "ok" THEN "honest-run-failed" ELSE IF e.key # x[2].k THEN "nonconforming-key" ELSE "nonconforming-SA"
+Kx3b(e, x) == Stay /\ tlast' = Verdict(e, Kx3Ok(e, x), "step3." \o e.tamper, Kx3Kind(e, x))
+Kx3(e) == Kx3b(e, Kx3Exp(e, IF JCanon(e.rb_in) THEN Denote(e.rb_in) ELSE <<"bad">>, Mul(e.r, G)))
+\* step 4 (B): receives SA'; accepts iff it equals S2 computed from what B holds (RA' as received in step 2)
+Kx4Exp(e, rcv, rb) == IF ~RecvOK(rcv) THEN <<"err">> ELSE <<"ok", KxResponder(BFromBE(e.d), BFromBE(e.r), rb, PtA(e), rcv, KxZ(e, "A"), KxZ(e, "B"), e.klen)>>
+Kx4Ok(e, x) == IF x[1] = "err" THEN e.outcome = "err" \/ (e.outcome = "ok" /\ e.accepted = 0)
+               ELSE e.outcome = "ok" /\ (e.accepted = 1) = (x[2].sa = e.sa_in)
+Kx4b(e, x) == Stay /\ tlast' = Verdict(e, Kx4Ok(e, x), "step4." \o e.tamper, IF Crash(e) THEN e.outcome ELSE IF e.accepted = 1 THEN "accepted-wrong-SA" ELSE "rejected-correct-SA")
+Kx4(e) == Kx4b(e, Kx4Exp(e, IF JCanon(e.ra_in) THEN Denote(e.ra_in) ELSE <<"bad">>, Mul(e.r, G)))
+
 Step(e) == IF e.op = "sm2.verify" THEN Ver1(e)
            ELSE IF e.op = "sm2.verify_digest" THEN VerD1(e)
            ELSE IF e.op \in {"sm2.sign", "sm2.sign_digest"} THEN Sign1(e)
            ELSE IF e.op = "sm2.encrypt" THEN Enc1(e)
            ELSE IF e.op = "sm2.decrypt" THEN Dec1(e)
            ELSE IF e.op = "sm2.kdf" THEN Kdf1(e)
+           ELSE IF e.op = "kx.step1" THEN Kx1(e)
+           ELSE IF e.op = "kx.step2" THEN Kx2(e)
+           ELSE IF e.op = "kx.step3" THEN Kx3(e)
+           ELSE IF e.op = "kx.step4" THEN Kx4(e)
            ELSE Stay /\ tlast' = <<e.id, "dev", e.prop, "unknown-op", e.op>>
 TInit == tpos \in {j \in 1..N : IsStart(j)} /\ tst = St0 /\ tlast = <<>>
 TNext == tpos <= N /\ (tlast = <<>> \/ ~IsStart(tpos)) /\ tpos' = tpos + 1 /\ Step(Events[tpos])
